@@ -2186,6 +2186,11 @@ class NetCDFWrite(IOWrite):
                         self.implementation.get_data_axes(f, key),
                         extra=extra,
                     )
+                else:
+                    # No netCDF variable has been created (the
+                    # coordinates only have bounds), so there is
+                    # nothing for the 'coordinates' attribute to name
+                    ncvar = None
 
         g["key_to_ncvar"][key] = ncvar
         g["key_to_ncdims"][key] = ncdimensions
